@@ -21,7 +21,7 @@ Your task: produce TWO different, independent, realistic source changes (bugs a 
 For each change i in (1, 2):
  1. make the change in the worktree (starting from a clean `git checkout -- .` state for each, so the two patches are independent and each applies to HEAD alone),
  2. run the full existing test suite and confirm that all tests pass,
- 3. write a demonstration: a small shell script `demo.sh` that takes the path of a jawk source tree as $1, builds it (`cargo build --offline --manifest-path $1/Cargo.toml`), runs the binary `$1/target/debug/jawk` on a concrete input / options, and exits 0 if the property holds on that input and 1 if it is violated. It must exit 1 with your change applied and exit 0 on the unchanged tree (verify both: you can verify the unchanged tree by `git stash`/`git checkout -- .` in your worktree).
+ 3. write a demonstration: a small shell script `demo.sh` that takes the path of a jawk source tree as $1, builds it (`cargo build --offline --manifest-path $1/Cargo.toml`), runs the binary `$1/target/debug/jawk` on a concrete input / options, and exits 0 if the property holds on that input and 1 if it is violated. It must exit 1 with your change applied and exit 0 on the unchanged tree (verify both; NEVER use `git stash` - the stash is shared between worktrees of other people; save your change with `git diff > /some/file`, restore the unchanged tree with `git checkout -- .`, and re-apply with `git apply /some/file`).
  4. save into {out}/m<i>/ : `patch.diff` (output of `git diff` in the worktree, relative to HEAD), `demo.sh`, and `meta.json` with keys: property (\"{p['id']}\"), summary (one sentence: what was changed), needs (what specific input/option combination/sequence is needed for the violation to manifest), verified (what commands you ran and what you observed: tests pass with the change, demo fails with the change, demo passes without).
 
 At the end leave the worktree clean (`git checkout -- .`) and reply with a short summary of the two changes (files, what they need to manifest) and the paths written. Do not spend time on anything else.""")
